@@ -85,4 +85,4 @@ def run(ctx):
                        "timeouts incl. 0, release, get_capacity, sleeps; classes: timeout coinciding exactly with a release (and "
                        "one tick before/after), FIFO queues with timeouts in the middle, random; MC: 2-3 actors without timeouts. "
                        "non-trivial = accepted trace with at least one acquire and one release (MC: complete trace)")
-    synclib.standard_run(ctx, gen_normal, gen_mc, nontrivial, quick=(100, 3), thorough=(3000, 30))
+    synclib.standard_run(ctx, gen_normal, gen_mc, nontrivial, quick=(100, 3), thorough=(1500, 12))
